@@ -502,6 +502,15 @@ def locate(fn, loc):
         return assign_value(fn, loc[1], loc[2])
     if kind == "arg":
         return call_arg(fn, loc[1], loc[2], loc[3])
+    if kind == "has_call":
+        # ("has_call", callee suffix): does the function contain, outside any nested function, a call whose callee text ends
+        # with the suffix?  -> a boolean constant (e.g. "the close path cancels the timer")
+        hit = any(isinstance(n, ast.Call) and ast.unparse(n.func).endswith(loc[1]) for n in ast.walk(fn))
+        return ast.copy_location(ast.Constant(value=bool(hit)), fn)
+    if kind == "body_empty":
+        # ("body_empty",): the function does nothing (docstring / `pass` / `return` only)  -> a boolean constant
+        body = [x for x in strip_doc(fn.body) if not isinstance(x, ast.Pass) and not (isinstance(x, ast.Return) and x.value is None)]
+        return ast.copy_location(ast.Constant(value=not body), fn)
     if kind == "call_has_arg":
         # ("call_has_arg", callee suffix, argument source, nth): is `argument` among the positional arguments of the nth
         # call to `callee` in the function?  -> a boolean constant.  Fails closed when there is no such call.
